@@ -22,7 +22,7 @@ def run(ctx):
     ctx.floor('C05.executed', 200)
     ctx.floor('C05.taint_clause_checked', 30)
     w_auto.run_targeted_taints(ctx, ('C05',))
-    w_auto.run(ctx, ('C05',), {'quick': 3500, 'thorough': 200000}[ctx.tier])
+    w_auto.run(ctx, ('C05',), {'quick': 7000, 'thorough': 1500000}[ctx.tier])
 
 
 def replay(ctx, rec):
